@@ -150,6 +150,29 @@ TEMPLATES = [
     T("iso_hms_words_us", "us",
       lambda d: "%s-%02d-%02d %02dh%02dm%02d.%06ds" % (
           Y(d), d.month, d.day, d.hour, d.minute, d.second, d.microsecond)),
+    # seconds with a fraction in front of the unit letter: tokens of every
+    # length from "28.1" (4) to "28.12345" (8); six characters is also the
+    # length of a packed HHMMSS
+    T("iso_hms_words_ms", "ms",
+      lambda d: "%s-%02d-%02d %02dh%02dm%02d.%03ds" % (
+          Y(d), d.month, d.day, d.hour, d.minute, d.second,
+          d.microsecond // 1000)),
+    T("hms_words_ms_only", "ms",
+      lambda d: "%02dh%02dm%02d.%03ds %s-%02d-%02d" % (
+          d.hour, d.minute, d.second, d.microsecond // 1000,
+          Y(d), d.month, d.day)),
+    T("iso_hms_words_f1", "f1",
+      lambda d: "%s-%02d-%02d %02dh%02dm%02d.%01ds" % (
+          Y(d), d.month, d.day, d.hour, d.minute, d.second,
+          d.microsecond // 100000)),
+    T("iso_hms_words_f4", "f4",
+      lambda d: "%s-%02d-%02d %02dh%02dm%02d.%04ds" % (
+          Y(d), d.month, d.day, d.hour, d.minute, d.second,
+          d.microsecond // 100)),
+    T("iso_hms_words_f5", "f5",
+      lambda d: "%s-%02d-%02d %02dh%02dm%02d.%05ds" % (
+          Y(d), d.month, d.day, d.hour, d.minute, d.second,
+          d.microsecond // 10)),
     # numeric dates under matching flags (four-digit year)
     T("us_slash", "s", lambda d: "%02d/%02d/%s %02d:%02d:%02d" % (
         d.month, d.day, Y(d), d.hour, d.minute, d.second)),
